@@ -1,4 +1,4 @@
-CONSTANTS PRE = 3 CUT = 5 NBH = 16 BUFSZ = 8 THRESH = 4 MINREAD = 2 FIXRA = FALSE FIXCR = FALSE MAXDOCS = 2
+CONSTANTS PRE = 3 CUT = 5 NBH = 16 BUFSZ = 8 THRESH = 4 MINREAD = 2 FIXRA = TRUE FIXCR = FALSE MAXDOCS = 2
 INIT Init
 NEXT Next
 INVARIANTS FileCorrect
